@@ -83,6 +83,7 @@ def compare(stats, o, out, m, env, var, route, case, tag, prop=None):
 
 
 def check(stats, m, env, var, as_object=False, selfcheck=False, sub="forward"):
+    m = safe(m)
     stats.case()
     o = DV.oracle(m, env, var, selfcheck=selfcheck)
     stats.count("oracle:" + o.st)
